@@ -56,9 +56,11 @@ Proof. split; [exact fragment_configs|exact fragment_instance]. Qed.
 Print Assumptions C03_fragment_hypotheses.
 
 (* ... and through the inline phase: the token tree of the spelled text is the tree it was written from
-   (tok_of: paragraphs holding their lines as raw text separated by soft line breaks, quotes, single-item lists with the marker's attributes) *)
+   (tok_of: paragraphs holding their lines as raw text separated by soft line breaks, one-line paragraphs holding raw text, one Emphasis / Strong, raw text
+   (leaf FEm: the span types must also satisfy emph_spans), quotes, single-item lists with the marker's attributes) *)
+From Mistletoe Require Import Proofs.EmphSimple.
 Theorem C03_fragment_token_tree : forall types span_types keep fn t f ln st,
-  fragment_config types = true -> prose_spans span_types = true -> wf_b t = true -> (depth t <= f)%nat ->
+  fragment_config types = true -> prose_spans span_types = true -> emph_spans span_types = true -> wf_b t = true -> (depth t <= f)%nat ->
   make_tokens span_types keep fn (fst (fst (tokenize_block types (S f) (text_of (spell t)) ln st))) = [tok_of false t].
 Proof. exact fragment_token_tree. Qed.
 Print Assumptions C03_fragment_token_tree.
@@ -72,7 +74,7 @@ Proof. exact fuel_suffices. Qed.
 Print Assumptions C03_fragment_fuel_suffices.
 
 Theorem C03_fragment_document : forall cfg t,
-  fragment_config (cfg_block cfg) = true -> prose_spans (cfg_span cfg) = true -> wf_b t = true ->
+  fragment_config (cfg_block cfg) = true -> prose_spans (cfg_span cfg) = true -> emph_spans (cfg_span cfg) = true -> wf_b t = true ->
   fst (fst (parse_lines cfg (text_of (spell t)))) = Document [tok_of false t].
 Proof. exact fragment_document. Qed.
 Print Assumptions C03_fragment_document.
@@ -83,7 +85,7 @@ Proof. exact fragment_document_markdown. Qed.
 Print Assumptions C03_fragment_document_markdown.
 
 Theorem C03_fragment_document_configs :
-  forallb (fun c => fragment_config (cfg_block c) && prose_spans (cfg_span c))
+  forallb (fun c => fragment_config (cfg_block c) && prose_spans (cfg_span c) && emph_spans (cfg_span c))
           [cfg_html; cfg_html_nohtml; cfg_latex; cfg_mathjax; cfg_default] = true.
 Proof. exact document_configs. Qed.
 Print Assumptions C03_fragment_document_configs.
@@ -95,7 +97,7 @@ Print Assumptions C03_fragment_document_configs.
    break characters *)
 From Mistletoe Require Import Proofs.FragmentHtml.
 Theorem C03_fragment_html : forall cfg o t,
-  fragment_config (cfg_block cfg) = true -> prose_spans (cfg_span cfg) = true -> wf_b t = true ->
+  fragment_config (cfg_block cfg) = true -> prose_spans (cfg_span cfg) = true -> emph_spans (cfg_span cfg) = true -> wf_b t = true ->
   render_html o (fst (fst (parse_lines cfg (text_of (spell t))))) = html_f o false t ++ [10].
 Proof. exact fragment_html. Qed.
 Print Assumptions C03_fragment_html.
@@ -260,3 +262,15 @@ Theorem C03_fragment_rules_instance :
                         $"   > + ____" ++ [10%Z]; $"   > " ++ [10%Z]; $"   >   e" ++ [10%Z]; [10%Z]; $"   ___" ++ [10%Z] ].
 Proof. vm_compute. repeat split; reflexivity. Qed.
 Print Assumptions C03_fragment_rules_instance.
+
+(* inline markup inside the block structure: a one-line paragraph with an emphasised phrase (leaf FEm: text, a run of * or _ once or
+   twice, a word group, the run again, text - C06_emphasis_in_sentence) is a leaf of the fragment too, at every nesting depth *)
+Theorem C03_fragment_emphasis_instance :
+  let t := FQuote [FEm 115 $"ee " 42 false $"this" $" (now)"; FItem (MBullet 45) 1 [FEm 97 $" " 95 true $"b c" []; FRule 42 0]] in
+  wf_b t = true /\
+  text_of (spell t) = [ $"> see *this* (now)" ++ [10%Z]; $"> " ++ [10%Z]; $"> - a __b c__" ++ [10%Z]; $"> " ++ [10%Z]; $">   ***" ++ [10%Z] ] /\
+  html_f (mkHopts false false) false t =
+    $"<blockquote>" ++ [10%Z] ++ $"<p>see <em>this</em> (now)</p>" ++ [10%Z] ++ $"<ul>" ++ [10%Z] ++ $"<li>" ++ [10%Z] ++ $"<p>a <strong>b c</strong></p>" ++ [10%Z] ++
+    $"<hr />" ++ [10%Z] ++ $"</li>" ++ [10%Z] ++ $"</ul>" ++ [10%Z] ++ $"</blockquote>".
+Proof. vm_compute. repeat split; reflexivity. Qed.
+Print Assumptions C03_fragment_emphasis_instance.
